@@ -70,7 +70,7 @@ func c03Flow(c c03Case) (string, int) {
 	if r1.Panic != "" || r1.Err != "" {
 		return fail("error-on-first-request", r1.Panic+r1.Err)
 	}
-	if r1.OK || r1.HTTPStatus != 302 || !strings.HasPrefix(r1.Location, w.Cfg.GetAuthorizationUri()) {
+	if r1.OK || !world.IsRedirect(r1.HTTPStatus) || !strings.HasPrefix(r1.Location, w.Cfg.GetAuthorizationUri()) {
 		return fail("no-login-redirect", fmt.Sprintf("first request answered code=%v http=%d location=%q", r1.Code, r1.HTTPStatus, r1.Location))
 	}
 	sid := w.SessionFromSetCookie(r1)
@@ -90,7 +90,7 @@ func c03Flow(c c03Case) (string, int) {
 		return fail("error-on-callback", r2.Panic+r2.Err)
 	}
 	want := "https://app.test" + c.Target
-	if r2.OK || r2.HTTPStatus != 302 {
+	if r2.OK || !world.IsRedirect(r2.HTTPStatus) {
 		return fail("callback-does-not-redirect "+c03Shape(c), fmt.Sprintf("callback answered code=%v http=%d body=%q", r2.Code, r2.HTTPStatus, r2.Body))
 	}
 	if r2.Location != want {
@@ -177,7 +177,7 @@ func c03ServerFlow(ans world.Answer, fwd bool, prefix string, rules string, targ
 	idp.Mode = ans
 	path := "/a" + target
 	r1 := sw.Do(world.SReq{Tenant: "a", Path: path})
-	if r1.OK || r1.HTTPStatus != 302 || r1.Location == "" {
+	if r1.OK || !world.IsRedirect(r1.HTTPStatus) || r1.Location == "" {
 		return fmt.Sprintf("no-login-redirect (code=%v http=%d err=%s)", r1.Code, r1.HTTPStatus, r1.Err)
 	}
 	cn := world.CookieName(prefix)
@@ -194,7 +194,7 @@ func c03ServerFlow(ans world.Answer, fwd bool, prefix string, rules string, targ
 	}
 	idp.Mode = ans
 	r2 := sw.Do(world.SReq{Tenant: "a", Path: strings.TrimPrefix(cb, "https://app.test"), Cookies: map[string]string{cn: sid}})
-	if r2.HTTPStatus != 302 || r2.Location != "https://app.test"+path {
+	if !world.IsRedirect(r2.HTTPStatus) || r2.Location != "https://app.test"+path {
 		return fmt.Sprintf("callback answered code=%v http=%d location=%q, first requested %q", r2.Code, r2.HTTPStatus, r2.Location, "https://app.test"+path)
 	}
 	for i := 0; i < 3; i++ {
